@@ -22,6 +22,9 @@ operators
   demorgan       `not a and not b`            -> `not (a or b)`
   isinstance-split `isinstance(x, (A, B))`    -> `isinstance(x, A) or isinstance(x, B)`
   extract-arg    `f(p, g(x))` (p pure)        -> `_arg = g(x); f(p, _arg)`
+  drop-else      `if c: ...return else: R`    -> `if c: ...return` ; R
+  swap-assign    `a = p ; b = q` (pure, independent) -> `b = q ; a = p`
+  dict-ctor      `{"k": v}` (identifier keys) -> `dict(k=v)`
 
 usage: benignsweep.py [--jobs 16] [--limit N] [--ops a,b] [--files x.py,..] [--out FILE] [--seed N]
 """
@@ -297,6 +300,53 @@ def variants_of(path, ops):
                             if done:
                                 emit("extract-arg", n.lineno, f"{fn.name}: {ast.unparse(a)[:60]}", t2)
                             break
+        if "drop-else" in ops or "swap-assign" in ops:
+            for owner in [fn] + [x for x in own_nodes(fn) if isinstance(x, (ast.If, ast.For, ast.While, ast.With, ast.Try))]:
+                for fld in ("body", "orelse"):
+                    lst = getattr(owner, fld, None)
+                    if not isinstance(lst, list):
+                        continue
+                    for k, st in enumerate(lst):
+                        if "drop-else" in ops and isinstance(st, ast.If) and st.orelse and isinstance(st.body[-1], (ast.Return, ast.Raise)) \
+                                and not (len(st.orelse) == 1 and isinstance(st.orelse[0], ast.If)):
+                            t2, l2 = clone()
+                            o2 = l2[idx_of[id(owner)]]
+                            lst2 = getattr(o2, fld)
+                            s2 = lst2[k]
+                            tail = s2.orelse
+                            s2.orelse = []
+                            lst2[k + 1:k + 1] = tail
+                            emit("drop-else", st.lineno, f"{fn.name}: if {ast.unparse(st.test)[:60]}", t2)
+                        if "swap-assign" in ops and k + 1 < len(lst) and isinstance(st, ast.Assign) and isinstance(lst[k + 1], ast.Assign) \
+                                and len(st.targets) == 1 and len(lst[k + 1].targets) == 1 and isinstance(st.targets[0], ast.Name) and isinstance(lst[k + 1].targets[0], ast.Name) \
+                                and pure(st.value) and pure(lst[k + 1].value):
+                            a, b = st, lst[k + 1]
+                            na, nb = a.targets[0].id, b.targets[0].id
+                            used_b = {x.id for x in ast.walk(b.value) if isinstance(x, ast.Name)}
+                            used_a = {x.id for x in ast.walk(a.value) if isinstance(x, ast.Name)}
+                            if na != nb and na not in used_b and nb not in used_a:
+                                t2, l2 = clone()
+                                o2 = l2[idx_of[id(owner)]]
+                                lst2 = getattr(o2, fld)
+                                lst2[k], lst2[k + 1] = lst2[k + 1], lst2[k]
+                                emit("swap-assign", st.lineno, f"{fn.name}: {na} / {nb}", t2)
+        if "dict-ctor" in ops:
+            for n in own_nodes(fn):
+                if isinstance(n, ast.Dict) and n.keys and all(isinstance(k, ast.Constant) and isinstance(k.value, str) and k.value.isidentifier() and k.value not in ("self", "cls")
+                                                                for k in n.keys) and len(n.keys) <= 4:
+                    import keyword as _kw
+                    if any(_kw.iskeyword(k.value) for k in n.keys):
+                        continue
+                    t2, l2 = clone()
+                    m = l2[idx_of[id(n)]]
+                    new = ast.Call(func=ast.Name(id="dict", ctx=ast.Load()), args=[], keywords=[ast.keyword(arg=k.value, value=v) for k, v in zip(m.keys, m.values)])
+                    for p in l2:
+                        for fld, val in ast.iter_fields(p):
+                            if val is m:
+                                setattr(p, fld, new)
+                            elif isinstance(val, list) and m in val:
+                                val[val.index(m)] = new
+                    emit("dict-ctor", n.lineno, f"{fn.name}: {ast.unparse(n)[:60]}", t2)
         if "add-else" in ops:
             for owner in [fn] + [x for x in own_nodes(fn) if isinstance(x, (ast.If, ast.For, ast.While, ast.With, ast.Try))]:
                 for fld in ("body", "orelse"):
@@ -375,7 +425,7 @@ def main():
     args = sys.argv[1:]
     jobs, limit, files, outp, seed, with_suite = 16, None, None, "benignsweep.jsonl", 1, False
     ops = ["unparse", "rename-local", "if-swap", "ret-local", "ne-flip", "cmp-mirror", "and-split", "add-else",
-           "eq-swap", "update-setitem", "ifexp-if", "demorgan", "isinstance-split", "extract-arg"]
+           "eq-swap", "update-setitem", "ifexp-if", "demorgan", "isinstance-split", "extract-arg", "drop-else", "swap-assign", "dict-ctor"]
     for i, a in enumerate(args):
         if a == "--jobs":
             jobs = int(args[i + 1])
